@@ -31,12 +31,16 @@ type BoundsSite struct {
 	FnName string
 	Expr   string // normalised source expression (locals replaced by their types), line-free
 	Raw    string // the expression as written (for reading; not part of the key)
+	Alt    string // Expr with single-definition pure locals replaced by their definition (hoisting-insensitive)
 	Node   ast.Node
 	Pos    token.Pos
 }
 
 // Key is the line-free identity of a site: function + kind + expression.
 func (s BoundsSite) Key() string { return s.FnName + " " + s.Kind + " " + s.Expr }
+
+// AltKey is the identity with hoisted sub-expressions written back in place.
+func (s BoundsSite) AltKey() string { return s.FnName + " " + s.Kind + " " + s.Alt }
 
 var bceRe = regexp.MustCompile(`^(.+\.go):(\d+):(\d+): Found (IsInBounds|IsSliceInBounds)`)
 
@@ -161,6 +165,7 @@ func (p *Prog) RunBCE(extraEnv ...string) ([]BoundsSite, error) {
 		if s.Node != nil {
 			if e, ok := s.Node.(ast.Expr); ok {
 				s.Expr = normExpr(p.Fset, file, e, fileInfo[file])
+				s.Alt = normExprX(p.Fset, file, e, fileInfo[file], af, 0)
 				s.Raw = types.ExprString(e)
 			} else {
 				s.Expr = fmt.Sprintf("%T", s.Node)
@@ -388,4 +393,152 @@ func normExpr(fset *token.FileSet, file string, e ast.Expr, info *types.Info) st
 		}
 	}
 	return strings.Join(strings.Fields(txt), " ")
+}
+
+// normExprX is normExpr with every local that has exactly one, side-effect-free definition in
+// its function replaced by (the normal form of) that definition: `end := len(h.entries);
+// sort.Search(end, f)` and `sort.Search(len(h.entries), f)` get the same text.
+func normExprX(fset *token.FileSet, file string, e ast.Expr, info *types.Info, af *ast.File, depth int) string {
+	src := srcCache[file]
+	tf := fset.File(e.Pos())
+	if tf == nil || src == nil || info == nil || af == nil || depth > 3 {
+		return normExpr(fset, file, e, info)
+	}
+	start, end := tf.Offset(e.Pos()), tf.Offset(e.End())
+	if start < 0 || end > len(src) || start >= end {
+		return types.ExprString(e)
+	}
+	type rep struct {
+		a, b int
+		s    string
+	}
+	var reps []rep
+	qual := func(pk *types.Package) string { return pk.Name() }
+	ast.Inspect(e, func(n ast.Node) bool {
+		if fl, ok := n.(*ast.FuncLit); ok {
+			reps = append(reps, rep{tf.Offset(fl.Pos()) - start, tf.Offset(fl.End()) - start, "func‹literal›"})
+			return false
+		}
+		id, ok := n.(*ast.Ident)
+		if !ok {
+			return true
+		}
+		obj, _ := info.Uses[id].(*types.Var)
+		if obj == nil || obj.IsField() || obj.Pkg() == nil || obj.Parent() == obj.Pkg().Scope() {
+			return true
+		}
+		txt := "‹" + types.TypeString(obj.Type(), qual) + "›"
+		if def := singlePureDef(info, af, obj); def != nil {
+			txt = normExprX(fset, file, def, info, af, depth+1)
+		}
+		reps = append(reps, rep{tf.Offset(id.Pos()) - start, tf.Offset(id.End()) - start, txt})
+		return true
+	})
+	txt := string(src[start:end])
+	sort.Slice(reps, func(i, j int) bool { return reps[i].a > reps[j].a })
+	for _, r := range reps {
+		if r.a >= 0 && r.b <= len(txt) && r.a <= r.b {
+			txt = txt[:r.a] + r.s + txt[r.b:]
+		}
+	}
+	return strings.Join(strings.Fields(txt), " ")
+}
+
+// singlePureDef returns the defining expression of local v if v is defined exactly once, never
+// assigned again or address-taken, and the definition has no call (len/cap and conversions
+// excepted), receive or function literal.
+func singlePureDef(info *types.Info, af *ast.File, v *types.Var) ast.Expr {
+	// enclosing top-level function
+	var encl ast.Node
+	for _, d := range af.Decls {
+		if fd, ok := d.(*ast.FuncDecl); ok && fd.Pos() <= v.Pos() && v.Pos() < fd.End() {
+			encl = fd
+		}
+	}
+	if encl == nil {
+		return nil
+	}
+	var def ast.Expr
+	ndef, bad := 0, false
+	ast.Inspect(encl, func(n ast.Node) bool {
+		switch x := n.(type) {
+		case *ast.AssignStmt:
+			for i, l := range x.Lhs {
+				id, ok := ast.Unparen(l).(*ast.Ident)
+				if !ok {
+					continue
+				}
+				if x.Tok == token.DEFINE && info.Defs[id] == types.Object(v) {
+					ndef++
+					if len(x.Lhs) == len(x.Rhs) {
+						def = x.Rhs[i]
+					} else {
+						bad = true
+					}
+				} else if info.Uses[id] == types.Object(v) {
+					bad = true // assigned again
+				}
+			}
+		case *ast.ValueSpec:
+			for i, id := range x.Names {
+				if info.Defs[id] == types.Object(v) {
+					ndef++
+					if len(x.Values) == len(x.Names) {
+						def = x.Values[i]
+					} else {
+						bad = true
+					}
+				}
+			}
+		case *ast.IncDecStmt:
+			if id, ok := ast.Unparen(x.X).(*ast.Ident); ok && info.Uses[id] == types.Object(v) {
+				bad = true
+			}
+		case *ast.UnaryExpr:
+			if x.Op == token.AND {
+				if id, ok := ast.Unparen(x.X).(*ast.Ident); ok && info.Uses[id] == types.Object(v) {
+					bad = true
+				}
+			}
+		case *ast.RangeStmt:
+			for _, kv := range []ast.Expr{x.Key, x.Value} {
+				if id, ok := kv.(*ast.Ident); ok && (info.Defs[id] == types.Object(v) || info.Uses[id] == types.Object(v)) {
+					bad = true
+				}
+			}
+		}
+		return true
+	})
+	if bad || ndef != 1 || def == nil {
+		return nil
+	}
+	pure := true
+	ast.Inspect(def, func(n ast.Node) bool {
+		switch x := n.(type) {
+		case *ast.FuncLit:
+			pure = false
+		case *ast.UnaryExpr:
+			if x.Op == token.ARROW {
+				pure = false
+			}
+		case *ast.CallExpr:
+			ok := false
+			if tv, has := info.Types[x.Fun]; has && tv.IsType() {
+				ok = true
+			}
+			if id, isId := ast.Unparen(x.Fun).(*ast.Ident); isId {
+				if _, isB := info.Uses[id].(*types.Builtin); isB && (id.Name == "len" || id.Name == "cap") {
+					ok = true
+				}
+			}
+			if !ok {
+				pure = false
+			}
+		}
+		return pure
+	})
+	if !pure {
+		return nil
+	}
+	return def
 }
